@@ -2603,6 +2603,9 @@ impl CanonicalizeContext {
 			script.replace_children(new_children);
 			let lifted_base = as_element(mrow_children[i_multiscript]);
 			add_attrs(script, &lifted_base.attributes());
+			if lifted_base == base {
+				script.remove_attribute("id");			// 'base' stays in the tree and keeps its id -- don't duplicate it
+			}
 			script.remove_attribute("data-split");		// doesn't make sense on mmultiscripts
 			script.remove_attribute("mathvariant");		// doesn't make sense on mmultiscripts
 			mrow_children[i_multiscript] = ChildOfElement::Element(script);
@@ -4040,9 +4043,14 @@ impl CanonicalizeContext {
 	
 		let mut parsed_mrow = top_of_stack.mrow;
 		assert_eq!( name(&top_of_stack.mrow), "mrow");
+		let mut saved_mrow_attrs = saved_mrow_attrs;
 		if parsed_mrow.children().len() == 1 && is_ok_to_merge_child {
 			parsed_mrow = top_of_stack.remove_last_operand_from_mrow();
 			// was synthesized, but is really the original top level mrow
+			if parsed_mrow.attribute("id").is_some() {
+				// the only child takes the place of the mrow -- it keeps its own id (as when the clean pass lifts a lone child)
+				saved_mrow_attrs.retain(|attr| attr.name().local_part() != "id");
+			}
 		}
 	
 		parsed_mrow.remove_attribute(CHANGED_ATTR);
